@@ -28,6 +28,7 @@ ASSUMPTIONS = [
 NBASES = {"quick": 20, "thorough": 200}
 SHARD_TIMEOUT = {"quick": 400, "thorough": 3000}
 MOD = "vf.checks.c04"
+START_METHODS = True
 RANDOM_K = {"quick": 6, "thorough": 100}
 
 
